@@ -114,12 +114,14 @@ package capnp
 //@   requires wfStruct(p) && p.flags&^isListMember == 0
 //@   ensures wfPtr(r) && r.depthLimit == p.depthLimit && r.seg == p.seg
 //@   ensures r.flags.ptrType() == structPtrType
+//@   ensures r.off == p.off && r.size == p.size && r.flags.structFlags() == p.flags
 
 //@ func List.ToPtr -> r
 //@   props C01 C02 C03
 //@   requires wfList(p) && p.flags&^(isCompositeList|isBitList) == 0
 //@   ensures wfPtr(r) && r.depthLimit == p.depthLimit && r.seg == p.seg
 //@   ensures r.flags.ptrType() == listPtrType
+//@   ensures r.off == p.off && r.size == p.size && r.lenOrCap == uint32(p.length) && r.flags.listFlags() == p.flags
 
 // ---------------------------------------------------------------- list.go
 
